@@ -656,11 +656,15 @@ fn spawn_child(cfg: &BatchCfg, shard: u64, of: u64, only: Option<&Path>, out: &P
 /// spawned shard process regenerates the runs from the seed and executes them in one forked child.
 /// Used for violations that depend on where the allocator places things and therefore do not
 /// reproduce from an explicit op list, whose replay allocates differently (replay layer `L1-group`).
-pub fn rerun_group(cfg: &BatchCfg, gid: u64) -> Result<Vec<Found>, String> {
+pub fn rerun_group(cfg: &BatchCfg, gid: u64, with_shard_prefix: bool) -> Result<Vec<Found>, String> {
     let dir = crate::env::scratch_root().join(format!("w1-regroup-{}", std::process::id()));
     std::fs::create_dir_all(&dir).map_err(|e| e.to_string())?;
     let only = dir.join("only");
-    std::fs::write(&only, format!("{}\n", gid)).map_err(|e| e.to_string())?;
+    // with_shard_prefix: every group the group's shard process executed before it in the batch, in the same
+    // order, so that the forking parent has lived through the same history when it forks the group
+    let w = cfg.workers.max(1) as u64;
+    let list: Vec<String> = if with_shard_prefix { (0..=gid).filter(|g| g % w == gid % w).map(|g| g.to_string()).collect() } else { vec![gid.to_string()] };
+    std::fs::write(&only, format!("{}\n", list.join("\n"))).map_err(|e| e.to_string())?;
     let out = dir.join("shard.out");
     let status = dir.join("status");
     let mut c = spawn_child(cfg, 0, 1, Some(&only), &out, &status)?;
